@@ -33,6 +33,7 @@ type GCSWorld struct {
 	mux   *http.ServeMux
 	ys    *yStore
 	Logs  []string
+	ctx   context.Context // context of the next request only (consumed by Do)
 }
 
 type yStore struct {
@@ -229,6 +230,9 @@ func (w *GCSWorld) Do(q HReq) *HResp {
 	}
 	if q.Ctx != nil {
 		req = req.WithContext(q.Ctx)
+	} else if w.ctx != nil {
+		req = req.WithContext(w.ctx)
+		w.ctx = nil
 	}
 	rec := httptest.NewRecorder()
 	w.mux.ServeHTTP(rec, req)
